@@ -4,6 +4,9 @@
 
 use serde::{Deserialize, Serialize};
 
+/// stands for u64::MAX in mint-term heights and offsets (TLC integers are 32-bit)
+pub const HUGE: u64 = 2_000_000_000;
+
 pub const K: u64 = 1_000_000; // sats per unit
 pub const SUBSIDY_UNITS: u64 = 5_000;
 
